@@ -87,6 +87,18 @@ struct GMVar {
     bool isTerminal(size_t s) const { return c->term[c->base(s)]; }
     std::tuple<size_t, double> sampleSR(size_t s, size_t a) const { auto [s1, o, r] = c->step(s, a); (void)o; return {s1, r}; }
 };
+// non-integral state type: MCTS hashes it with the user-supplied StateHash (the `hashState` branch)
+struct HS { size_t id; };
+template <class T> struct HSHash { size_t operator()(const T & s) const { return s.id; } };
+struct GMHashed {
+    const Core * c;
+    HS getS() const { return HS{c->S()}; }
+    size_t getA(const HS & s) const { return c->numA[c->base(s.id)]; }
+    double getDiscount() const { return c->gamma; }
+    bool isTerminal(const HS & s) const { return c->term[c->base(s.id)]; }
+    std::tuple<HS, double> sampleSR(const HS & s, size_t a) const { auto [s1, o, r] = c->step(s.id, a); (void)o; return {HS{s1}, r}; }
+};
+static_assert(AIToolbox::IsGenerativeModel<GMHashed> && AIToolbox::HasIntegralActionSpace<GMHashed>);
 static_assert(AIToolbox::MDP::IsGenerativeModel<GMFixed>);
 static_assert(AIToolbox::POMDP::IsGenerativeModel<GMFixed>);
 static_assert(AIToolbox::IsGenerativeModel<GMVar> && AIToolbox::HasIntegralActionSpace<GMVar> && !AIToolbox::HasFixedActionSpace<GMVar>);
@@ -146,12 +158,18 @@ static void genCore(Core & c, Rng & rng, int kind, bool witness, unsigned maxSte
     c.Amax = witness ? 2 : 1 + rng.below(3);
     static const double gs[] = {0.5, 0.75, 1.0, 0.5};
     c.gamma = witness ? 0.5 : gs[rng.below(4)];
+    // "ugly" stream: non-dyadic discount and rewards (returns are rounded; values are compared at 1e-9)
+    bool ugly = !witness && rng.coin(1, 5);
+    static const double ug[] = {0.95, 0.9, 1.0 / 3.0};
+    if (ugly) c.gamma = ug[rng.below(3)];
+    double unit = ugly ? (rng.coin() ? 0.1 : 1.0 / 3.0) : 0.25;
+    if (ugly) std::printf("#stat ugly 1\n");
     int rmode = witness ? 2 : (int)rng.below(4);       // 0 mixed, 1 all negative, 2 all positive, 3 mostly zero
     double lo = rmode == 2 ? 0.25 : -4.0, hi = rmode == 1 ? -0.25 : 4.0;
     c.numA.assign(c.nb, c.Amax); c.term.assign(c.nb, 0);
     if (kind == 1) { for (auto & n : c.numA) n = 1 + rng.below(c.Amax); c.numA[rng.below(c.nb)] = c.Amax; }
     if (!witness) for (size_t b = 1; b < c.nb; ++b) if (rng.coin(1, 4)) c.term[b] = 1;
-    c.termR = (!witness && rng.coin(1, 2)) ? 0.0 : (rmode == 1 ? -1.0 : 1.0);
+    c.termR = (!witness && rng.coin(1, 2)) ? 0.0 : (rmode == 1 ? -4 * unit : 4 * unit);
     c.out.assign(c.nb, {});
     double mn = 1e9, mx = -1e9;
     for (size_t b = 0; b < c.nb; ++b) {
@@ -160,7 +178,7 @@ static void genCore(Core & c, Rng & rng, int kind, bool witness, unsigned maxSte
             size_t k = 1 + rng.below(3);
             for (size_t i = 0; i < k; ++i) {
                 Outcome o; o.b1 = rng.below(c.nb); o.o = rng.below(c.O); o.w = 1 + (unsigned)rng.below(3);
-                double r = (double)rng.range((int64_t)(lo * 4), (int64_t)(hi * 4)) / 4.0;
+                double r = (double)rng.range((int64_t)(lo * 4), (int64_t)(hi * 4)) * unit;
                 if (rmode == 3 && rng.coin(3, 4)) r = 0;
                 if (witness) r = 1.0;
                 o.r = r; c.out[b][a].push_back(o);
@@ -290,15 +308,16 @@ static AIToolbox::POMDP::Belief mkBelief(const Core & c, const std::vector<size_
 
 static const long kWitness = 4;
 
-long verif::verif_ncases(const std::string & tier) { return kWitness + (tier == "thorough" ? 4000 : 260); }
+long verif::verif_ncases(const std::string & tier) { return kWitness + (tier == "thorough" ? 9000 : 700); }
 
 void verif::verif_case(Rng & rng, long idx, const std::string & tier) {
     bool witness = idx < kWitness;
-    int kind = witness ? (int)(idx % 4) : (int)rng.below(4);
+    int kind = witness ? (int)(idx % 4) : (int)rng.below(5);     // 4 = MCTS on a hashed non-integral state type
     unsigned maxSteps = 0;
     auto plan = genPlan(rng, tier, witness, maxSteps);
     Core c; genCore(c, rng, kind, witness, maxSteps);
     c.rng = Rng(rng.next());
+    AIToolbox::Seeder::setRootSeed((unsigned)rng.next());   // the planners seed their own engine from the global Seeder: make the case replayable
     static const double es[] = {1.0, 0.5, 4.0, 100.0, 0.0};
     double expl = witness ? 1.0 : es[rng.below(5)];
     std::printf("#stat kind%d 1\n#stat layered%d 1\n", kind, (int)c.layered);
@@ -314,6 +333,13 @@ void verif::verif_case(Rng & rng, long idx, const std::string & tier) {
         episode(c, kind, rng, plan, expl, 0, pl,
             [&](const std::vector<size_t> & s, unsigned h) { return pl.sampleAction(s[0], h); },
             [&](size_t a, size_t k, unsigned h) { return pl.sampleAction(a, k, h); },
+            [&](Line & l, Path & p, size_t & n) { dumpMcts(pl.getGraph(), p, l, n); },
+            [&](size_t a, size_t k) { auto & g = pl.getGraph(); return a < g.children.size() && g.children[a].children.count(k) > 0; }, false);
+    } else if (kind == 4) {
+        GMHashed m{&c}; AIToolbox::MDP::MCTS<GMHashed, HSHash> pl(m, 1, expl);
+        episode(c, 1, rng, plan, expl, 0, pl,
+            [&](const std::vector<size_t> & s, unsigned h) { return pl.sampleAction(HS{s[0]}, h); },
+            [&](size_t a, size_t k, unsigned h) { return pl.sampleAction(a, HS{k}, h); },
             [&](Line & l, Path & p, size_t & n) { dumpMcts(pl.getGraph(), p, l, n); },
             [&](size_t a, size_t k) { auto & g = pl.getGraph(); return a < g.children.size() && g.children[a].children.count(k) > 0; }, false);
     } else if (kind == 2) {
